@@ -128,11 +128,18 @@ func TestC06FreshStandin(t *testing.T) {
 					ops = append(ops, fmt.Sprintf("AddTag(%s,%q)", n, def))
 				}
 			case 2:
-				n := names[rng.Intn(3)]
+				n := names[rng.Intn(4)]
 				if _, ok := defs[n]; !ok {
 					continue
 				}
 				def := refDef(n)
+				if strings.HasPrefix(n, "mark/") {
+					// a mark is redefined by a new id list
+					def = fmt.Sprintf("id:%d", rng.Intn(nStreams))
+					if rng.Intn(2) == 0 {
+						def += fmt.Sprintf(",%d", rng.Intn(nStreams))
+					}
+				}
 				if err := mgr.UpdateTag(n, UpdateTagOperationUpdateQuery(def)); err == nil {
 					defs[n] = def
 					ops = append(ops, fmt.Sprintf("UpdateQuery(%s,%q)", n, def))
